@@ -14,7 +14,7 @@ from tools.lib import reduce_suite as R
 LEVEL = "proof"
 FUNCS = G.REDUCE_FUNCS + G.ARG_FUNCS + G.FIRSTLAST + G.BOOL_FUNCS
 ENGINES = ["numpy", "numba", "flox", "numbagg", None]
-DTYPES = ["float64", "float64", "float32", "int64", "int32", "int16", "int8", "uint8", "uint16", "bool"]
+DTYPES = ["float64", "float64", "float32", "int64", "int32", "int16", "int8", "uint8", "uint16", "uint32", "uint64", "bool"]
 OPS = {"sum": "OSum", "prod": "OProd", "max": "OMax", "min": "OMin", "nansum": "ONansum", "nanprod": "ONanprod",
        "nanlen": "ONanlen", "nanmax": "ONanmax", "nanmin": "ONanmin"}
 
